@@ -14,7 +14,8 @@ fixed-point integer (value * 10^34).  Uses mpmath only.
    "sign":1|-1, "lead":digits, "drop":n}
       computed value = sign * int(lead) * 10^(drop-34)   (for results with
       thousands of digits only the leading 80 digits are sent)
-      -> {"id":i,"ok":bool,"err":float,"tol":float,"loose":bool}
+      -> {"id":i,"ok":bool,"err":relative error,"tol":relative tolerance,
+          "ratio":|got-true|/absolute tolerance,"loose":bool}
 
 Documented tolerance ("the reference's error bound"), U = 10^-34 (one unit in
 the last place), E = 10^-24 (series / continued-fraction cut-off):
@@ -114,6 +115,7 @@ def do_tol(q):
         "ok": bool(err <= tol),
         "err": float(err / max(fabs(true), U)) if true != 0 else float(err),
         "tol": float(rel),
+        "ratio": float(err / tol),
         "loose": bool(rel > mpf(10) ** -6),
     }
 
